@@ -7,6 +7,7 @@
 
 #include <iostream>
 #include <ostream>
+#include <set>
 #include <string>
 #include <vector>
 
@@ -588,38 +589,28 @@ Graph::NodeId TreeGraphImpl<GraphImpl>::MRCA(const std::vector<Graph::NodeId>& n
   if (nbnodes == 1)
     return nodes[0];
 
-  // Forward counts
-  auto fathers = std::make_shared<std::map<Graph::NodeId, unsigned int>>();
-  auto sons = std::make_shared<std::map<Graph::NodeId, unsigned int>>();
-
-  for (auto nodeid:nodes)
+  // Climb from each node to the ancestors of the current candidate
+  Graph::NodeId mrca = nodes[0];
+  for (size_t i = 1; i < nbnodes; ++i)
   {
-    (*sons)[nodeid] = 1;
-  }
-
-  while (sons->size() > 1)
-  {
-    // From sons to fathers
-    for (auto son:(*sons))
+    std::set<Graph::NodeId> ancestors;
+    Graph::NodeId up = mrca;
+    ancestors.insert(up);
+    while (hasFather(up))
     {
-      Graph::NodeId here = (!hasFather(son.first)) ? son.first : getFatherOfNode(son.first);
-
-      if (fathers->find(here) == fathers->end())
-        (*fathers)[here] = son.second;
-      else
-        (*fathers)[here] += son.second;
-
-      if ((*fathers)[here] == nbnodes)
-        return here;
+      up = getFatherOfNode(up);
+      ancestors.insert(up);
     }
-
-    auto temp = sons;
-    sons = fathers;
-    fathers = temp;
-    fathers->clear();
+    Graph::NodeId cur = nodes[i];
+    while (ancestors.find(cur) == ancestors.end())
+    {
+      if (!hasFather(cur))
+        throw Exception("TreeGraphImpl::MRCA not found");
+      cur = getFatherOfNode(cur);
+    }
+    mrca = cur;
   }
-
-  throw Exception("TreeGraphImpl::MRCA not found");
+  return mrca;
 }
 }
 #endif // BPP_GRAPH_TREEGRAPHIMPL_H
